@@ -288,3 +288,18 @@ PROPS["C12"] = dict(
     rule="a case is a literal text (with the string it must denote for the law cases); every case is "
          "non-trivial (contains an escape, a quote or a non-ASCII/control character); distinct by text",
 )
+
+PROPS["C13"] = dict(
+    streams=["C13"],
+    compare=cmp_laws,
+    classify=lambda case, model, why: dict(kind="failing-input", why=(case[1][:300] if "kind=law" in case[2] else why)),
+    gate_imports=EVAL_GATE + "From Cel.Model Require Import Builtins.\nFrom Cel.Proofs Require Import LiteralProofs NumericProofs.\nOpen Scope Z_scope.",
+    exhaustive=False,
+    rule="a case is a literal text or a conversion program over a boundary or random number; every "
+         "case is at or beyond a range boundary, needs rounding, or is a random 64-bit pattern; "
+         "distinct by text and context; law cases evaluate 'denotes the number' / 'corresponding "
+         "value or error' / the string round trips on the implementation's own answers",
+    release_too=True,
+    trusted_extra=["Coq.Floats.SpecFloat (binary_normalize, SFdiv_core_binary, binary_round_aux) as the "
+                   "definition of correct rounding to binary64; checked against Rust's str::parse / Display by this run"],
+)
